@@ -158,6 +158,11 @@ theorem tx_atomic (env : Env) (db : Db) (prevCtx : Ctx) (tx : TxSpec)
           (attempt env true db (if tx.reuseCtx = true then prevCtx else Ctx.empty) tx.body).st.ctx (laterBody tx.body)).res with
       | ok => simp [hr2, commit] at hne
       | err e2 => simp [rollback]
+  | raw =>
+    simp only [hm, dbRaw] at hne ⊢
+    cases hr : (runSteps env tx.body (beginTx db Ctx.empty)).2 with
+    | ok => simp [hr, commit] at hne
+    | err e => simp [rollback]
 
 /-- **C07, every failure inside a transaction reaches the caller** (bodies that hand operation
     errors on, Update and Batch): whenever the spec says the transaction must not succeed — a step of
@@ -241,7 +246,7 @@ theorem rejected_operation_surfaces (env : Env) (h : FromCode env) (db : Db) (ct
         | link op id ts =>
           simp only [List.cons_append, specSteps]
           split
-          · simp [specSteps]
+          · simp
           · exact ih _
         | addCommit tag => simp only [List.cons_append, specSteps]; exact ih _
         | addPre tag fails => simp only [List.cons_append, specSteps]; exact ih _
